@@ -208,7 +208,7 @@ fn main() {
             }
             let starts: Vec<u64> = if t { session::seq_starts().into_iter().filter(|p| *p % 2 == 1 || *p > u64::MAX - 4 || *p < 3).collect() } else { vec![0, 255, (1 << 32) - 1, (1 << 56) - 1, u64::MAX - 3, u64::MAX - 2, u64::MAX - 1, u64::MAX] };
             go(&session::E2b { suites: session::seq_suites(false), starts, depth: if t { 4 } else { 3 }, letters: (0..12).collect(), label: "full".into() }, &cfg, &mut reports, &mut replayed);
-            go(&session::LongRuns { suites: session::seq_suites(false), n_fail: if t { 300_000 } else { 70_000 }, n_ok: if t { 300_000 } else { 70_000 } }, &cfg, &mut reports, &mut replayed);
+            go(&session::LongRuns { suites: session::seq_suites(false), n_fail: if t { 600_000 } else { 150_000 }, n_ok: if t { 300_000 } else { 70_000 } }, &cfg, &mut reports, &mut replayed);
             // a deeper tree from the two ends of the sequence space
             go(&session::E2b { suites: session::seq_suites(false), starts: if t { vec![0, u64::MAX - 2, u64::MAX - 1] } else { vec![u64::MAX - 1] }, depth: if t { 5 } else { 4 }, letters: (0..12).collect(), label: "deep".into() }, &cfg, &mut reports, &mut replayed);
         }
@@ -236,7 +236,7 @@ fn main() {
             go(&props::c13::C13, &cfg, &mut reports, &mut replayed);
             // many malformed deliveries to ONE context: nothing may panic or overflow however many arrive
             let t = cfg.tier.thorough();
-            go(&session::LongRuns { suites: session::seq_suites(false), n_fail: if t { 300_000 } else { 70_000 }, n_ok: 1 }, &cfg, &mut reports, &mut replayed);
+            go(&session::LongRuns { suites: session::seq_suites(false), n_fail: if t { 600_000 } else { 150_000 }, n_ok: 1 }, &cfg, &mut reports, &mut replayed);
         }
         "C14" => go(&props::c14::C14, &cfg, &mut reports, &mut replayed),
         "C15" => go(&props::c14::C15, &cfg, &mut reports, &mut replayed),
